@@ -2,12 +2,14 @@ package main
 
 func init() {
 	register("C13", &propInfo{
-		Explanation: "W: for every worker of the library (go statements in loops and callbacks of the concurrent runners; found in the SSA of all library packages) every write to memory shared between workers, direct or through callees (effect summaries over the VTA call graph), is index-addressed by the worker's own index/received item or performed under a held sync.Mutex. Q: the query methods of the interfaces documented as safe for concurrent use have no unlocked write effect on receiver-reachable or global memory. Z: the lazily built vertex index of Mesh is only touched through atomic Load/Store outside mutators, built under the creation lock after a re-check, and not written after it is published.",
+		Explanation: "W: for every worker of the library (go statements in loops and callbacks of the concurrent runners; found in the SSA of all library packages) every write to memory shared between workers, direct or through callees (effect summaries over the VTA call graph), is index-addressed by the worker's own index/received item or performed under a held sync.Mutex. Q: the query methods of the interfaces documented as safe for concurrent use have no unlocked write effect on receiver-reachable or global memory. PUBLISH: a value put into a sync.Map or atomic.Value is not written through after the call, and nothing is written through a pointer that came out of such a container. Z: the lazily built vertex index of Mesh is only touched through atomic Load/Store outside mutators, built under the creation lock after a re-check, and not written after it is published.",
 		Trusted:     []string{"go/ssa and the VTA call graph of x/tools v0.29.0", "reachability-based aliasing of checker/effects.go (no points-to analysis available)", "the runner table (validated: each runner reaches a go statement)", "packages outside the descend list (sync, sync/atomic, runtime, fmt, os, math, ...) do not write memory reachable from their arguments, except sort.* (hand summary)"},
 		Assumptions: []string{"user-supplied function values (FuncSolid etc.) are pure, as the Solid contract demands", "worker indices are distinct per worker (injectivity of index expressions is not proved)"},
 		Fixtures:    []string{"w"},
 		Run:         runC13,
 		SelfTest: []Mutation{
+			{Name: "memoised scalar function publishes an empty slot and fills it later", File: "model2d/curves.go",
+				Old: "\t\tvalue, ok := cache.Load(x)\n\t\tif ok {\n\t\t\treturn value.(float64)\n\t\t} else {\n\t\t\ty := f(x)\n\t\t\tcache.Store(x, y)\n\t\t\treturn y\n\t\t}", New: "\t\tslot, loaded := cache.LoadOrStore(x, new(float64))\n\t\ty := slot.(*float64)\n\t\tif !loaded {\n\t\t\t*y = f(x)\n\t\t}\n\t\treturn *y", Rule: "PUBLISH", Expect: "CacheScalarFunc"},
 			{Name: "AddSpheresSDF without the mutex (defect F5 re-introduced)", File: "toolbox3d/height_map.go",
 				Old: "\t\t\tlock.Lock()\n\t\t\tdefer lock.Unlock()\n", New: "",
 				More: [][2]string{{"\tvar lock sync.Mutex\n", ""}, {"\t\"sync\"\n", ""}}, Rule: "W", Expect: "AddSpheresSDF"},
@@ -44,6 +46,8 @@ func runC13(c *Ctx) {
 	c.floor("Z.LOCKED", 2)
 	c.floor("Z.RECHECK", 2)
 	c.floor("Z.PUBLISH", 2)
+	c.runPublish("PUBLISH", pkgs)
+	c.floor("PUBLISH", 2)
 	c.runLoopCapture("GO", pkgs)
 	c.floor("GO.CAPTURE", 1)
 	c.floor("GO.STRIDE", 0)
